@@ -399,6 +399,16 @@ def _check(prop, tier, seed, tmp, t0):
     rcs = run_procs(jobs, secs * 4 + 900)
     sums, crashes = [], []
     transient = []
+    plain_cache = {}
+
+    def plain_binary(eng):
+        if eng not in plain_cache:
+            if eng == "l1":
+                plain_cache[eng] = build_l1(tmp, False)
+            else:
+                plain_cache[eng] = build_l2(tmp, False, tier, seed, name="l2norace")[0]
+        return plain_cache[eng]
+
     def race_report(i):
         txt = ""
         for rp in glob.glob(os.path.join(tmp, "race_%d*" % i)) + [os.path.join(tmp, "log_%d" % i)]:
@@ -416,7 +426,10 @@ def _check(prop, tier, seed, tmp, t0):
             rc = rcs[i] = 67
             for rp in glob.glob(os.path.join(tmp, "race_%d*" % i)):
                 os.remove(rp)
-        if not (rc == 0 and os.path.exists(p)) and rc not in (66, -9):
+        skipped = []
+        for attempt in range(4):
+            if (rc == 0 and os.path.exists(p)) or rc in (66, -9):
+                break
             # A process death that is not a race report: first see whether the run it died in
             # reproduces the death; if not, it is not a property of that execution (seen: the
             # race runtime segfaulting under load). Re-run the whole batch of that process once.
@@ -427,10 +440,30 @@ def _check(prop, tier, seed, tmp, t0):
                 json.dump({"property": prop, "class": "process-crash", "engine": meta[i], "from_seed": True, "desc": desc}, open(rpath, "w"))
                 rc2, out2 = run_replay(binaries[meta[i]], rpath, race)
                 reproduced = rc2 not in (0, 66)
-            if not reproduced:
-                shutil.copy(os.path.join(tmp, "log_%d" % i), os.path.join(tmp, "log_%d.first" % i))
-                rc = run_procs([jobs[i]], secs * 4 + 900)[0]
-                transient.append("process %d (%s) died once (rc=%s) in a run that does not reproduce the death; its batch was re-run (rc=%s)" % (i, meta[i], rcs[i], rc))
+                if reproduced and race:
+                    # The same execution in a build without the race detector tells whose death it is:
+                    # seen with go1.26.8, a SIGSEGV inside the race runtime (__tsan::SlotLock) when a
+                    # select runs a due ticker of a synctest bubble. Process survival is C04's clause and
+                    # is judged in plain builds; here such a run is skipped and reported.
+                    plain = plain_binary(meta[i])
+                    rc3, _ = run_replay(plain, rpath, False)
+                    if rc3 == 0:
+                        skipped.append(int(desc.get("run", -1)))
+                        reproduced = False
+            if reproduced:
+                break
+            shutil.copy(os.path.join(tmp, "log_%d" % i), os.path.join(tmp, "log_%d.first" % i))
+            argv, env_i, lp = jobs[i]
+            if skipped:
+                argv = [a for a in argv if not a.startswith("-sim.skip=")] + ["-sim.skip=" + ",".join(str(r) for r in skipped)]
+                jobs[i] = (argv, env_i, lp)
+            rc_before = rc
+            rc = run_procs([jobs[i]], secs * 4 + 900)[0]
+            if rc == 66 and "DATA RACE" not in race_report(i):
+                rc = 67
+            transient.append("process %d (%s) died (rc=%s) in a run that %s; its batch was re-run%s (rc=%s)" % (
+                i, meta[i], rc_before, "dies only in the race-detector build (race runtime), not in the plain build" if skipped else "does not reproduce the death",
+                " without run(s) %s" % skipped if skipped else "", rc))
         if rc == 0 and os.path.exists(p):
             s = json.load(open(p))
             s["engine"] = meta[i]
@@ -475,6 +508,10 @@ def finish(prop, tier, seed, t0, sums, crashes, binaries, race, engines, extra_c
             infra.append("process %d died (rc=%s) before its first run:\n%s" % (c["proc"], c["rc"], c["log"][-1500:]))
             continue
         is_race = c["rc"] == 66 and race
+        if race and not is_race:
+            # C12 is decided by race reports; whether a process survives is C04's clause, judged in plain builds
+            infra.append("process %d (%s, race-detector build) died (rc=%s) without a race report; log tail:\n%s" % (c["proc"], eng, c["rc"], c["log"][-1500:]))
+            continue
         cls = "data-race" if is_race else "process-crash"
         if any(c0 == cls for c0, _, _ in confirmed):
             continue
